@@ -24,9 +24,9 @@ Theorem C04_extras_ignored : forall e k n sid vs Js Jl,
   /\ decode e sid (encode e sid (VStruct vs)) = DOk (norm_struct e sid (VStruct vs)) [].
 Proof. exact RoundTripProofs.extras_ignored. Qed.
 
-(* the same into any admissible (also reused-but-reset) target, explicit fuel condition, any struct type *)
+(* the same into ANY target (used or fresh), explicit fuel condition, any struct type *)
 Theorem C04_extras_ignored_into : forall e k sid vs prior Js tail,
-  wf_schema k e -> has_type e (TStruct sid) (VStruct vs) -> zlike e (TStruct sid) prior ->
+  wf_schema k e -> has_type e (TStruct sid) (VStruct vs) ->
   junks_ok None (fields_of e sid) Js ->
   (forall fd, In fd (fields_of e sid) -> follows (ftag fd) tail) ->
   (need_list vs + k + 3 <= 2 * length (encx_fields e vs (fields_of e sid) Js ++ tail) + 64)%nat ->
@@ -116,9 +116,9 @@ Theorem C04_code_schemas_extras_nested : forall sid vs Js body Jl, fits_model si
   decode env0 sid (body ++ ser_fields Jl) = DOk (norm_struct env0 sid (VStruct vs)) (ser_fields Jl)
   /\ decode env0 sid (encode env0 sid (VStruct vs)) = DOk (norm_struct env0 sid (VStruct vs)) [].
 Proof. exact RoundTripExamples.env0_extras_nested. Qed.
-(* the same for any struct type (recursive ones included) and any admissible target, with the explicit fuel hypothesis *)
+(* the same for any struct type (recursive ones included) and ANY target, with the explicit fuel hypothesis *)
 Theorem C04_extras_nested_into : forall e k sid vs prior Js body tail,
-  wf_schema k e -> has_type e (TStruct sid) (VStruct vs) -> zlike e (TStruct sid) prior ->
+  wf_schema k e -> has_type e (TStruct sid) (VStruct vs) ->
   xfields e (fields_of e sid) vs Js body -> junks_ok None (fields_of e sid) Js ->
   (forall fd, In fd (fields_of e sid) -> follows (ftag fd) tail) ->
   (need_list vs + k + 3 <= 2 * length (body ++ tail) + 64)%nat ->
